@@ -8,6 +8,8 @@ use std::mem::{ManuallyDrop, MaybeUninit};
 
 use parking_lot::lock_api::RawMutex;
 
+#[cfg(oxidd_verif)]
+use oxidd_core::util::verif_locks;
 use oxidd_core::util::{Borrowed, DropWith};
 use oxidd_core::{ApplyCache, Edge, Manager, ManagerEventSubscriber};
 
@@ -88,6 +90,9 @@ impl CountPair {
 struct Entry<M: Manager, O, const ENTRY_CAP: usize> {
     /// Mutex for all the `UnsafeCell`s in here
     mutex: crate::util::RawMutex,
+    /// Index of this bucket (lock-trace instrumentation only)
+    #[cfg(oxidd_verif)]
+    idx: u32,
     /// Count of operands. If 0, this entry is not occupied.
     operands: UnsafeCell<CountPair>,
     /// Count of values
@@ -118,6 +123,8 @@ impl<M: Manager, O: Copy + Eq, const ENTRY_CAP: usize> Entry<M, O, ENTRY_CAP> {
     #[allow(clippy::declare_interior_mutable_const)]
     const INIT: Self = Self {
         mutex: crate::util::RawMutex::INIT,
+        #[cfg(oxidd_verif)]
+        idx: 0,
         operands: UnsafeCell::new(CountPair::NULL),
         values: UnsafeCell::new(CountPair::NULL),
         operator: UnsafeCell::new(MaybeUninit::uninit()),
@@ -127,14 +134,30 @@ impl<M: Manager, O: Copy + Eq, const ENTRY_CAP: usize> Entry<M, O, ENTRY_CAP> {
     #[inline]
     fn lock(&self) -> EntryGuard<'_, M, O, ENTRY_CAP> {
         self.mutex.lock();
+        #[cfg(oxidd_verif)]
+        verif_locks::acquired(
+            verif_locks::Class::Bucket,
+            self.idx,
+            verif_locks::Mode::Excl,
+            true,
+        );
         EntryGuard(self)
     }
 
     #[inline]
     fn try_lock(&self) -> Option<EntryGuard<'_, M, O, ENTRY_CAP>> {
         if self.mutex.try_lock() {
+            #[cfg(oxidd_verif)]
+            verif_locks::acquired(
+                verif_locks::Class::Bucket,
+                self.idx,
+                verif_locks::Mode::Excl,
+                false,
+            );
             Some(EntryGuard(self))
         } else {
+            #[cfg(oxidd_verif)]
+            verif_locks::try_failed(verif_locks::Class::Bucket, self.idx);
             None
         }
     }
@@ -143,6 +166,8 @@ impl<M: Manager, O: Copy + Eq, const ENTRY_CAP: usize> Entry<M, O, ENTRY_CAP> {
 impl<M: Manager, O, const ENTRY_CAP: usize> Drop for EntryGuard<'_, M, O, ENTRY_CAP> {
     #[inline]
     fn drop(&mut self) {
+        #[cfg(oxidd_verif)]
+        verif_locks::released(verif_locks::Class::Bucket, self.0.idx);
         // SAFETY: The entry is locked.
         unsafe { self.0.mutex.unlock() }
     }
@@ -321,6 +346,10 @@ where
         let mut vec = Vec::with_capacity_in(buckets, hugealloc::HugeAlloc);
 
         vec.resize_with(buckets, || Entry::INIT);
+        #[cfg(oxidd_verif)]
+        for (i, entry) in vec.iter_mut().enumerate() {
+            entry.idx = i as u32;
+        }
         DMApplyCache(vec.into_boxed_slice(), PhantomData)
     }
 
@@ -452,7 +481,8 @@ where
         for entry in &*self.0 {
             let mut entry = entry.lock();
             entry.clear();
-            // Don't unlock!
+            // Don't unlock! (Consequently, the lock-trace instrumentation does
+            // not see a release here but in `post_gc()`.)
             std::mem::forget(entry);
         }
     }
@@ -462,6 +492,8 @@ where
             // SAFETY: `post_gc()` is called at most once after `pre_gc()` and
             // reordering. Hence, the mutex is locked. The cache is empty, so
             // we don't risk that a call to `get()` returns an invalid edge.
+            #[cfg(oxidd_verif)]
+            verif_locks::released(verif_locks::Class::Bucket, entry.idx);
             unsafe { entry.mutex.unlock() };
         }
     }
